@@ -172,7 +172,7 @@ def run(ctx):
         rnd = random.Random(ctx.seed * 49979687 + 18)
         cases = [gen_case(rnd) for _ in range(ctx.pick(30000, 1500000))]
     lines = ["Y %d %s %s %s" % (i, hexs("qtlogger.sentry"), hexs("1.0.0"), enc_msg(m)) for i, m in enumerate(cases)]
-    results, crashes = fmtdrv.run_cases(ctx, "san", lines, chunk=500, lags=fmtdrv.LAGS)
+    results, crashes = fmtdrv.run_cases(ctx, "san", lines, chunk=500, lags=fmtdrv.LAGS, tzs=fmtdrv.TZS)
 
     def rep_of(m):
         mm = dict(m)
@@ -213,6 +213,6 @@ def run(ctx):
         "samples": samples or [{"message": cases[0]["text"]}],
         "distinct_event_ids": len(seen),
     }
-    return ctx.finish(cov, ["TZ=UTC; message time taken from the driver-reported epoch milliseconds",
+    return ctx.finish(cov, ["process time zone cycles through UTC and POSIX TZ strings (JST-9, <-0330>3:30, CET with DST, EST5EDT); message time taken from the driver-reported epoch milliseconds",
                             "fingerprint prefix accept-set: first 100 UTF-16 units, 99 when the 100th would split a pair, or 100 code points"],
                       min_evals=1 if ctx.replay else 1000)
